@@ -29,20 +29,23 @@ def fifo_case(delay, kind):
         acts = list(range(1, 9))
         null = 0
     env = TradingEnv(action_space=sp, prices=prices(), steps_delay=delay)
-    env.reset()
-    executed = []
-    for k, a in enumerate(acts):
-        _, _, done, info = env.step(a)
-        executed.append(dict(info["_rebalancing"].allocation))
-        if done:
-            break
     bad = []
-    for k, ex in enumerate(executed):
-        due = null if k < delay else acts[k - delay]
-        vec = allocs[due] if kind == "disc" else list(due)
-        exp = {c: v for c, v in zip([SPY, IEF], vec) if v != 0}
-        if {c: round(float(v), 12) for c, v in ex.items()} != {c: round(float(v), 12) for c, v in exp.items()}:
-            bad.append({"step": k, "executed": {str(c): float(v) for c, v in ex.items()}, "due": {str(c): float(v) for c, v in exp.items()}})
+    for episode in range(2):                       # the second episode is abandoned mid-way actions of the first must not leak into it
+        env.reset()
+        executed = []
+        todo = acts if episode == 1 else acts[:5]
+        for k, a in enumerate(todo):
+            _, _, done, info = env.step(a)
+            executed.append(dict(info["_rebalancing"].allocation))
+            if done:
+                break
+        for k, ex in enumerate(executed):
+            due = null if k < delay else todo[k - delay]
+            vec = allocs[due] if kind == "disc" else list(due)
+            exp = {c: v for c, v in zip([SPY, IEF], vec) if v != 0}
+            if {c: round(float(v), 12) for c, v in ex.items()} != {c: round(float(v), 12) for c, v in exp.items()}:
+                bad.append({"episode": episode, "step": k, "executed": {str(c): float(v) for c, v in ex.items()},
+                            "due": {str(c): float(v) for c, v in exp.items()}})
     return bad
 
 
@@ -69,8 +72,12 @@ def latency_case(latency, offset):
     return bad
 
 
-def malformed_case(delay, badact, at):
-    env = TradingEnv(action_space=BoxPortfolio([SPY, IEF], -1, 1), prices=prices(), steps_delay=delay)
+def malformed_case(delay, badact, at, with_cash=False):
+    if with_cash:
+        from tradingenv.contracts import Cash
+        env = TradingEnv(action_space=BoxPortfolio([Cash(), SPY], -1, 1), prices=prices()[[SPY]], steps_delay=delay)
+    else:
+        env = TradingEnv(action_space=BoxPortfolio([SPY, IEF], -1, 1), prices=prices(), steps_delay=delay)
     env.reset()
     raised_at = None
     for k in range(7):
@@ -93,8 +100,40 @@ def malformed_case(delay, badact, at):
     return None
 
 
+def denotes_case(kind, as_weights, fractional):
+    """C17: an in-space action is executed as the allocation it denotes, in the declared unit, cash entry ignored"""
+    from tradingenv.contracts import Cash
+    cash = Cash()
+    cs = [cash, SPY, IEF]
+    vec = [0.3, 0.25, -0.1] if as_weights else [5.0, 7.0, -3.0]
+    if kind == "box":
+        sp = BoxPortfolio(cs, -10, 10, as_weights=as_weights, fractional=fractional)
+        action = np.array(vec)
+    else:
+        sp = DiscretePortfolio(cs, [[0, 0, 0], vec], as_weights=as_weights, fractional=fractional)
+        action = 1
+    env = TradingEnv(action_space=sp, prices=prices(), initial_cash=10000)
+    env.reset()
+    _, _, _, info = env.step(action)
+    rb = info["_rebalancing"]
+    want_cls = "Weights" if as_weights else "NrContracts"
+    exp = {SPY: vec[1], IEF: vec[2]}
+    got = {c: float(v) for c, v in dict(rb.allocation).items()}
+    prob = {}
+    if type(rb.allocation).__name__ != want_cls:
+        prob["unit"] = [type(rb.allocation).__name__, want_cls]
+    if rb.fractional != fractional:
+        prob["fractional"] = [rb.fractional, fractional]
+    if got != exp:
+        prob["allocation"] = [{str(c): v for c, v in got.items()}, {str(c): v for c, v in exp.items()}]
+    q = env.broker.holdings_quantity
+    if not as_weights and fractional and (abs(q.get(SPY, 0) - vec[1]) > 1e-9 or abs(q.get(IEF, 0) - vec[2]) > 1e-9):
+        prob["positions"] = {str(c): float(v) for c, v in q.items()}
+    return prob or None
+
+
 BAD_ACTIONS = {"short": np.array([0.5]), "out_of_bounds": np.array([0.5, 2.0]), "nan": np.array([np.nan, 0.1]),
-               "2d": np.array([[0.1, 0.1]]), "string": "x"}
+               "2d": np.array([[0.1, 0.1]]), "string": "x", "nan_in_cash_slot": np.array([np.nan, 0.5])}
 
 
 def timing(tier, seed):
@@ -119,10 +158,19 @@ def timing(tier, seed):
             acc.validated += 1
             if bad:
                 acc.fail("C08::shell::priced_at_last_quote_within_latency", "c08_timing", {"case": "latency", "latency": L, "offset": off}, bad[:2])
+    for kind in ("box", "disc"):
+        for as_weights in (True, False):
+            for fractional in (True, False):
+                p = denotes_case(kind, as_weights, fractional)
+                acc.case(("denotes", kind, as_weights, fractional))
+                acc.validated += 1
+                if p:
+                    acc.fail("C17::shell::executed_as_the_allocation_it_denotes", "c08_timing",
+                             {"case": "denotes", "space": kind, "as_weights": as_weights, "fractional": fractional}, p)
     for delay in (0, 1, 2):
         for nm in BAD_ACTIONS:
             for at in (0, 2):
-                p = malformed_case(delay, BAD_ACTIONS[nm], at)
+                p = malformed_case(delay, BAD_ACTIONS[nm], at, with_cash=(nm == "nan_in_cash_slot"))
                 acc.case(("malformed", delay, nm, at))
                 acc.validated += 1
                 if p:
@@ -194,7 +242,9 @@ def rerun(inp):
     elif c == "latency":
         bad = latency_case(inp["latency"], inp["offset"])
     elif c == "malformed":
-        bad = malformed_case(inp["delay"], BAD_ACTIONS[inp["action"]], inp["at"])
+        bad = malformed_case(inp["delay"], BAD_ACTIONS[inp["action"]], inp["at"], with_cash=(inp["action"] == "nan_in_cash_slot"))
+    elif c == "denotes":
+        bad = denotes_case(inp["space"], inp["as_weights"], inp["fractional"])
     else:
         r = decisions("quick", inp.get("seed", 0))
         bad = [f for f in r["failures"] if f["input"].get("n") == inp.get("n")]
